@@ -236,6 +236,65 @@ pub fn recognizers(def: &Def) -> Result<&'static [Rec; MAXT], String> {
     Ok(Box::leak(arr))
 }
 
+/// A user-style lexer that IGNORES the expected token kinds: it skips white space and
+/// returns the first terminal (in grammar order) that matches at the position, whatever
+/// the parser expects there (C15: must surface as an error result, never a panic).
+pub struct AnyLexer<C> {
+    recs: &'static [Rec; MAXT],
+    n: usize,
+    phantom: std::marker::PhantomData<C>,
+}
+
+impl<C> AnyLexer<C> {
+    pub fn new(recs: &'static [Rec; MAXT], n: usize) -> Self {
+        AnyLexer {
+            recs,
+            n,
+            phantom: std::marker::PhantomData,
+        }
+    }
+}
+
+impl<'i, C: Context<'i, str, St, Tk>> rustemo::Lexer<'i, C, St, Tk> for AnyLexer<C> {
+    type Input = str;
+    fn next_tokens(
+        &self,
+        context: &mut C,
+        input: &'i str,
+        _expected: Vec<(Tk, bool)>,
+    ) -> Box<dyn Iterator<Item = Token<'i, str, Tk>> + 'i> {
+        use rustemo::Input;
+        let rest = &input[context.position().pos..];
+        let skipped: usize = rest
+            .chars()
+            .take_while(|c| c.is_whitespace())
+            .map(|c| c.len_utf8())
+            .sum();
+        if skipped > 0 {
+            let ws = &rest[..skipped];
+            context.set_layout_ahead(Some(ws));
+            context.set_position(ws.position_after(context.position()));
+        } else {
+            context.set_layout_ahead(None);
+        }
+        let pos = context.position();
+        let rest = &input[pos.pos..];
+        let mut out = vec![];
+        // terminals first, STOP (index 0) last
+        for t in (1..self.n).chain(std::iter::once(0)) {
+            if let Some(v) = self.recs[t].recognize(rest) {
+                out.push(Token {
+                    kind: Tk(t),
+                    value: v,
+                    span: v.span_from(pos),
+                });
+                break;
+            }
+        }
+        Box::new(out.into_iter())
+    }
+}
+
 fn pos_json(p: Position) -> (i64, i64, i64) {
     (
         p.pos as i64,
@@ -416,6 +475,37 @@ pub fn empty_tree() -> Value {
 
 /// Runs the real `LRParser` with the real `StringLexer` over the dynamic
 /// definition. Returns (result, events, tree).
+pub fn run_lr_anylexer(
+    def: &'static Def,
+    recs: &'static [Rec; MAXT],
+    input: &'static str,
+    partial: bool,
+) -> (Value, Vec<Value>, Value) {
+    let lexer: AnyLexer<LCtx<'static>> = AnyLexer::new(recs, def.nterm);
+    let parser: LRParser<'static, LCtx<'static>, St, Pk, Tk, Nk, Def, _, Obs<'static>, str> =
+        LRParser::new(def, St(0), partial, false, lexer, Obs::new());
+    match parser.parse(input) {
+        Ok((tree, events)) => (ok_json(), events, tree_json(&tree)),
+        Err(e) => (error_json(&e), vec![], empty_tree()),
+    }
+}
+
+pub fn run_glr_anylexer(
+    def: &'static Def,
+    recs: &'static [Rec; MAXT],
+    input: &'static str,
+    partial: bool,
+    max_trees: usize,
+) -> (Value, Value) {
+    let lexer: AnyLexer<GCtx<'static>> = AnyLexer::new(recs, def.nterm);
+    let parser: GlrParser<'static, St, _, Pk, Tk, Nk, Def, str, ()> =
+        GlrParser::new(def, partial, false, lexer);
+    match parser.parse(input) {
+        Ok(forest) => (ok_json(), forest_json(&forest, max_trees)),
+        Err(e) => (error_json(&e), no_forest()),
+    }
+}
+
 pub fn run_lr(
     def: &'static Def,
     recs: &'static [Rec; MAXT],
